@@ -22,7 +22,8 @@ Catchment state; transform parameters) of every argument before and after each c
 equality of the two results; then a third call with OTHER data of the same kinds (same receiver): the first
 result object must still hold its snapshot and share no buffer with the third result.
 
-Cases: input kinds = C-contiguous 64-bit (float64 / int64), strided view (every other element of a larger
+Cases: input kinds = C-contiguous 64-bit (float64 / int64), series given as [n,1] arrays (contiguous, or one
+column of a wider table) or [1,n], strided view (every other element of a larger
 buffer), reversed (1-D, negative stride) or Fortran-ordered (2-D), float32 (float64 for integer data), int64,
 int32, python list, pandas Series / DataFrame with a non-default index; first all data arguments in the same
 kind, then random mixtures. A function may reject a kind with an exception (counted as rejected) provided its
@@ -37,7 +38,7 @@ from . import common as C
 
 PID = "C18"
 
-KINDS = ["c64", "strided", "revF", "flt", "i64", "i32", "list", "pandas"]
+KINDS = ["c64", "strided", "revF", "flt", "i64", "i32", "list", "pandas", "col", "colslice", "row"]
 
 
 # ----------------------------------------------------------------------------------------------
@@ -55,8 +56,16 @@ def variant(np, pd, base, kind, nature):
     """-> (object handed to the function, keep-alive). `base` is a float64 / int64 ndarray (1-D or 2-D)."""
     nat = np.float64 if nature == "float" else np.int64
     a = np.ascontiguousarray(np.array(base).astype(nat))
-    if kind == "c64":
+    if kind == "c64" or (kind in ("col", "colslice", "row") and a.ndim != 1):
         return a, None
+    if kind == "col":           # a series documented as [n] or [n,1]: one column, C-contiguous
+        return a.reshape(-1, 1).copy(), None
+    if kind == "colslice":      # ... one column of a wider table (not contiguous)
+        big = np.zeros((a.shape[0], 3), dtype=nat) + (7 if nature == "int" else 0.123)
+        big[:, 1] = a
+        return big[:, 1:2], big
+    if kind == "row":           # ... one row
+        return a.reshape(1, -1).copy(), None
     if kind == "strided":
         if a.ndim == 1:
             big = np.zeros(2 * a.shape[0] + 1, dtype=nat) + (7 if nature == "int" else 0.123)
@@ -653,11 +662,11 @@ def wrapper_cases(H, rng, kind, holes="none", flow="acyclic"):
           "i32": (np.int32, np.int32)}.get(kind)
     if gd is not None:
         f1 = make_flowdir(H, rng, dtype=gd[0], mode=flow)
-        out.append(("delineate_river", [f1, G.FLOWDIRCODE], lambda: G.delineate_river(f1, 0, nval=50)))
+        out.append(("delineate_river", [f1, G.FLOWDIRCODE], lambda nv=rng.choice([50, 2, 3, 1]): G.delineate_river(f1, 0, nval=nv)))
         f2 = make_flowdir(H, rng, dtype=gd[0], mode=flow)
         ta = G.Grid("ta", f2.ncols, f2.nrows, dtype=gd[1], nodata=-9)
         ta.data = np.round(np.array(floats(rng, f2.nrows * f2.ncols))).reshape(f2.nrows, f2.ncols)
-        out.append(("accumulate", [f2, ta, G.FLOWDIRCODE], lambda: G.accumulate(f2, ta, nprint=10 ** 9)))
+        out.append(("accumulate", [f2, ta, G.FLOWDIRCODE], lambda mx=rng.choice([-1, -1, 2, 5]): G.accumulate(f2, ta, nprint=10 ** 9, max_accumulated_cells=mx)))
         f3 = make_flowdir(H, rng, dtype=gd[0], mode=flow)
         out.append(("accumulate_default", [f3, None, G.FLOWDIRCODE], lambda: G.accumulate(f3, nprint=10 ** 9)))
         f4 = make_flowdir(H, rng, dtype=gd[0], mode=flow)
@@ -901,15 +910,15 @@ def build_entries(H):
                 lambda obs, ens, trans, st=st, ty=ty, **o: M.corr(obs, ens, trans, stat=st, type=ty, **o),
                 lambda rng: with_trans(rng, obs_ens(rng)), options={"excludenull": [False, True], "censor": [1e-10, 2.]})
     add("metrics.absolute_peak_error",
-        lambda obs, sim: M.absolute_peak_error(obs, sim, **({} if H.big else dict(winerase=6, winpeakbefore=2,
-                                                                                 winpeakafter=3, neventmax=3))),
+        lambda obs, sim, **o: M.absolute_peak_error(obs, sim, **({} if H.big else {**dict(winpeakbefore=2, winpeakafter=3), **o})),
+        options={"winerase": [6, 2, 15], "neventmax": [3, 1, 50]}, gen=
         lambda rng: [Arg("obs", holes(rng, vec(rng, 40, -1, 10))), Arg("sim", holes(rng, vec(rng, 40, -1, 10)))])
     for mod in (False, True):
         add(f"metrics.relative_percentile_error/modified={mod}",
-            lambda obs, sim, percentile_range, mod=mod: M.relative_percentile_error(obs, sim, percentile_range,
-                                                                                    modified=mod, neval=opt(10, 50)),
+            lambda obs, sim, percentile_range, mod=mod, **o: M.relative_percentile_error(obs, sim, percentile_range,
+                                                                                    modified=mod, **o),
             lambda rng: [Arg("obs", vec(rng, 30)), Arg("sim", vec(rng, 30)),
-                         Arg("percentile_range", [10., 90.], "fixed")])
+                         Arg("percentile_range", [10., 90.], "fixed")], options={"neval": [10, 2, 50]})
     add("metrics.confusion_matrix", lambda obs, sim: M.confusion_matrix(obs, sim),
         lambda rng: [Arg("obs", np.array([rng.randrange(3) for _ in range(N(15))]), "int"),
                      Arg("sim", np.array([rng.randrange(3) for _ in range(N(15))]), "int")])
@@ -927,8 +936,8 @@ def build_entries(H):
         options={"maxlag": [1, 3, 5]})
     add("sutils.acf/idx", lambda data, idx: S.acf(data, maxlag=2, idx=idx),
         lambda rng: [Arg("data", vec(rng, 25)), Arg("idx", np.array([rng.random() < 0.8 for _ in range(25)]), "fixed")])
-    add("sutils.lhs", lambda pmin, pmax: S.lhs(12, pmin, pmax),
-        lambda rng: [Arg("pmin", vec(rng, 3, 0, 1)), Arg("pmax", vec(rng, 3, 2, 3))])
+    add("sutils.lhs", lambda pmin, pmax, nsamples: S.lhs(nsamples, pmin, pmax),
+        lambda rng: [Arg("pmin", vec(rng, 3, 0, 1)), Arg("pmax", vec(rng, 3, 2, 3))], options={"nsamples": [12, 1, 2, 40]})
     add("sutils.lhs_norm", lambda mean, cov: S.lhs_norm(12, mean, cov),
         lambda rng: [Arg("mean", vec(rng, 3)), Arg("cov", np.diag(floats(rng, 3, 1, 2)) + 0.1)])
     for srt in (False, True):
@@ -1166,7 +1175,8 @@ def build_entries(H):
     add("Catchment.downstream", lambda self, idxup: self.downstream(idxup),
         lambda rng: [Arg("self", rawcatch(rng), "fixed"), Arg("idxup", gcells(rng), "int")])
     # mutators of their receiver: the receiver is rebuilt, the ARGUMENTS are what must stay untouched
-    add("Catchment.delineate_area", lambda flowdir, idxinlets: _delin(G, flowdir, idxinlets),
+    add("Catchment.delineate_area", lambda flowdir, idxinlets, **o: _delin(G, flowdir, idxinlets, **o),
+        options={"nval": [1000000, 5, 20, 1]}, gen=
         lambda rng: [Arg("flowdir", make_flowdir(H, rng, mode=fmode(rng)), "fixed"), Arg("idxinlets", np.array([0, 8]), "int")])
     add("Catchment.delineate_boundary", lambda self, mask: _bound(self, mask),
         lambda rng: _mask_args(H, rng, catch(rng, False)))
@@ -1202,14 +1212,20 @@ def build_entries(H):
     def rawcatch(rng):
         """a catchment whose area is not delineated (one-step queries work on any flow-direction grid)"""
         return G.Catchment("raw", make_flowdir(H, rng, *gshape(), mode=fmode(rng)))
-    add("grid.delineate_river", lambda flowdir: G.delineate_river(flowdir, 0, **({} if H.big else opt(dict(nval=60), dict(nval=5000)))),
-        lambda rng: [Arg("flowdir", fdir(rng), "fixed")], "fixed")
-    add("grid.accumulate", lambda flowdir, to_accumulate: G.accumulate(flowdir, to_accumulate, **opt(dict(nprint=10 ** 9), {})),
-        lambda rng: [Arg("flowdir", fdir(rng), "fixed"), Arg("to_accumulate", fgrid(rng, rng.choice(gtypes)), "fixed")], "fixed")
-    add("grid.accumulate/default", lambda flowdir: G.accumulate(flowdir, **opt(dict(nprint=10 ** 9), {})),
-        lambda rng: [Arg("flowdir", fdir(rng), "fixed")], "fixed")
-    add("grid.slope", lambda flowdir, altitude: G.slope(flowdir, altitude, **opt(dict(nprint=10 ** 9), {})),
-        lambda rng: [Arg("flowdir", fdir(rng), "fixed"), Arg("altitude", fgrid(rng, rng.choice(gtypes)), "fixed")], "fixed")
+    # size / limit arguments: large enough, the library default (big cases), and BELOW what the call needs (truncated runs)
+    add("grid.delineate_river",
+        lambda flowdir, idxupstream, nval: G.delineate_river(flowdir, idxupstream, **({} if H.big else dict(nval=nval))),
+        lambda rng: [Arg("flowdir", fdir(rng), "fixed"), Arg("idxupstream", rng.choice([0, 0, 1, 8]), "fixed")], "fixed",
+        options={"nval": [60, 2, 3, 5, 1, 5000]})
+    add("grid.accumulate", lambda flowdir, to_accumulate, **o: G.accumulate(flowdir, to_accumulate, **o),
+        lambda rng: [Arg("flowdir", fdir(rng), "fixed"), Arg("to_accumulate", fgrid(rng, rng.choice(gtypes)), "fixed")], "fixed",
+        options={"nprint": [10 ** 9, 100, 1, 7], "max_accumulated_cells": [-1, 1, 3, 10]})
+    add("grid.accumulate/default", lambda flowdir, **o: G.accumulate(flowdir, **o),
+        lambda rng: [Arg("flowdir", fdir(rng), "fixed")], "fixed",
+        options={"nprint": [10 ** 9, 100, 1, 7], "max_accumulated_cells": [-1, 1, 3, 10]})
+    add("grid.slope", lambda flowdir, altitude, **o: G.slope(flowdir, altitude, **o), options={"nprint": [10 ** 9, 100, 1, 7]},
+        gen=
+        lambda rng: [Arg("flowdir", fdir(rng), "fixed"), Arg("altitude", fgrid(rng, rng.choice(gtypes)), "fixed")], canonical="fixed")
     add("grid.voronoi", lambda catchment, xypoints: G.voronoi(catchment, xypoints),
         lambda rng: [Arg("catchment", catch(rng), "fixed"), Arg("xypoints", gxy(rng))])
     add("grid.gsmooth", lambda grid: G.gsmooth(grid, coastwin=5, sigma=0.5, minval=opt(-np.inf, 20.)),
@@ -1271,8 +1287,9 @@ def build_entries(H):
         finally:
             plt.close(fig)
     add("violinplot.Violin", lambda data, **o: vp(data, **o), covers=["violinplot.Violin.__init__"], gen= lambda rng: [Arg("data", holes(rng, mat(rng, 25, 2)))],
-        options={"show_text": [True, False]})
-    add("putils.kde", lambda xy: H.putils.kde(xy, ngrid=opt(8, 50)), lambda rng: [Arg("xy", mat(rng, 25, 2, -2, 2))])
+        options={"show_text": [True, False], "npoints_kde": [None, 20, 101]})
+    add("putils.kde", lambda xy, **o: H.putils.kde(xy, **o), lambda rng: [Arg("xy", mat(rng, 25, 2, -2, 2))],
+        options={"ngrid": [8, 2, 50], "eps": [1e-10, 1e-3]})
     add("putils.kde/ties", lambda xy: H.putils.kde(xy, ngrid=8),
         lambda rng: [Arg("xy", np.round(mat(rng, 25, 2, -2, 2)))])
     add("putils.kde/eps=0", lambda xy: H.putils.kde(xy, ngrid=8, eps=0.), lambda rng: [Arg("xy", mat(rng, 25, 2, -2, 2))])
@@ -1395,9 +1412,9 @@ def build_entries(H):
     return E
 
 
-def _delin(G, flowdir, idxinlets):
+def _delin(G, flowdir, idxinlets, **o):
     ca = G.Catchment("x", flowdir)
-    ca.delineate_area(flowdir.nrows * flowdir.ncols - 1, idxinlets)
+    ca.delineate_area(flowdir.nrows * flowdir.ncols - 1, idxinlets, **o)
     return (ca._idxcells_area, ca._idxcells_area_filled, ca._idxinlets)
 
 
@@ -2067,6 +2084,10 @@ def corpus(ctx, H):
             return a, lambda xy: H.putils.kde(xy, ngrid=6)
         if call == "grid.accumulate":
             return {"flowdir": mkgrid(j["grid"], np.int64)}, lambda flowdir: G.accumulate(flowdir, nprint=10 ** 9)
+        if call == "grid.delineate_river":
+            return {"flowdir": mkgrid(j["grid"], np.int64)}, lambda flowdir: G.delineate_river(flowdir, 0, **opts)
+        if call == "metrics.kge/column":
+            return a, lambda obs, sim: H.metrics.kge(obs, sim)
         if call == "sutils.pareto_front":
             return a, lambda data: H.sutils.pareto_front(data, **opts)
         if call == "qualitycontrol.islinear":
